@@ -2154,6 +2154,9 @@ func (ls *LState) Resume(th *LState, fn *LFunction, args ...LValue) (ResumeState
 
 	if haserror {
 		return ResumeError, newApiError(ApiErrorRun, ret[0]), nil
+	} else if ls.ctx != nil && ls.ctx.Err() != nil {
+		// as in PCall: a body that ends by tail-calling pcall leaves no instruction to notice the done context
+		return ResumeError, newApiErrorS(ApiErrorRun, ls.ctx.Err().Error()), nil
 	} else if th.Dead {
 		return ResumeOK, nil, ret
 	}
